@@ -31,13 +31,15 @@ def _cases(draw, max_size=9):
     thr_n = draw(st.one_of(st.none(), st.none(), st.integers(0, 5)))
     thr = None if thr_n is None else draw(gen.threshold_values(s["pos"] + s["neg"], thr_n, allow_inf=False))
     nb = draw(st.sampled_from([None, 0, 1, 2, 3, 4, 7, 10, 25]))
-    return dict(s=s, fnr=fnr, fpr=fpr, thr=thr, nb=nb)
+    # narrow float dtypes for exactly representable score values
+    f32 = draw(st.sampled_from([None, None, "float32", "float16"])) if s["mode"] in ("grid", "dyadic") else None
+    return dict(s=s, fnr=fnr, fpr=fpr, thr=thr, nb=nb, dtype=f32)
 
 
-def _mk(s, sc, ec):
+def _mk(s, sc, ec, dtype=None):
     from score_analysis import Scores
 
-    dt = int if s["mode"] == "int" else float
+    dt = int if s["mode"] == "int" else (dtype or float)
     return Scores(np.asarray(s["pos"], dtype=dt), np.asarray(s["neg"], dtype=dt),
                   nb_easy_pos=s["ep"], nb_easy_neg=s["en"], score_class=sc, equal_class=ec)
 
@@ -53,7 +55,7 @@ def check(case):
     nb = case["nb"]
     max_distinct = 0
     for sc, ec in CONFIGS:
-        o = _mk(s, sc, ec)
+        o = _mk(s, sc, ec, case.get("dtype"))
         sup = []
         if thr is not None:
             sup.append(thr)
@@ -104,6 +106,8 @@ def check(case):
                              or (thr is not None and len(thr)) else ["nothing-supplied"])
     if s["ep"] or s["en"]:
         labels.append("easy")
+    if case.get("dtype"):
+        labels.append(f"dtype:{case['dtype']}")
     return dict(nontrivial=max_distinct >= 3, labels=labels)
 
 
